@@ -8,6 +8,7 @@ package c07
 // Any non-zero exit is accepted otherwise; a child that does not exit is an infrastructure problem.
 
 import (
+	gnutar "archive/tar"
 	"bytes"
 	"context"
 	"encoding/hex"
@@ -41,6 +42,9 @@ type CLICase struct {
 	PriorLen  int    `json:"prior_len,omitempty"`
 	DestLen   int    `json:"dest_len,omitempty"` // extract: length of the destination's base name (0 = "blob"); near NAME_MAX no ".<name>.<random>" temp file fits next to it
 	Stats     bool   `json:"stats,omitempty"`    // make: --print-stats (the index file is then not written)
+	Fifo      bool   `json:"fifo,omitempty"`     // tar: --input-format tar, the tar stream (files of Case.Files) comes from a FIFO fed by the harness; no request is held
+	AddRoot   bool   `json:"add_root,omitempty"` // tar from a FIFO: --tar-add-root (otherwise the stream starts with a "./" directory)
+	Split     int    `json:"split,omitempty"`    // tar from a FIFO: bytes of the tar stream fed before the signal (capped at its length)
 }
 
 var cliCommands = []string{"extract", "verify-index", "chop", "cache", "make", "tar", "untar"}
@@ -53,13 +57,13 @@ const cliMakeArg = "1:1:4"
 // destination base-name lengths around the point where ".<name>.<up to 10 digits>" exceeds NAME_MAX (255)
 var cliDestLens = []int{200, 243, 244, 245, 250, 255}
 
-// cliCmdList: the commands drawn from (with weights). Quick: extract, and make at a low rate (a
-// handful of children per shard); thorough: all seven.
+// cliCmdList: the commands drawn from (with weights). Quick: extract, and make and tar (fed
+// through a FIFO) at a low rate (a handful of children per shard); thorough: all seven.
 func cliCmdList() []string {
 	if hx.Thorough() {
 		return append([]string{"extract", "extract"}, cliCommands...)
 	}
-	return []string{"extract", "extract", "extract", "extract", "extract", "extract", "extract", "make"}
+	return []string{"extract", "extract", "extract", "extract", "extract", "extract", "make", "tar"}
 }
 
 // genCLI decides with fair coin flips (rapid's integer generators are biased to small values)
@@ -126,6 +130,17 @@ func genCLI(t *rapid.T) (Case, bool) {
 		cl.PriorSeed = rapid.Uint64().Draw(t, "priorseed")
 		if cl.Cmd == "make" {
 			cl.Stats = rapid.Bool().Draw(t, "printstats")
+		}
+		if cl.Cmd == "tar" && (!hx.Thorough() || rapid.Bool().Draw(t, "fifo")) {
+			cl.Fifo = true
+			cl.AddRoot = rapid.Bool().Draw(t, "addroot")
+			// mostly early cuts: what the child has buffered when the signal arrives is then small
+			if rapid.Bool().Draw(t, "earlycut") {
+				cl.Split = rapid.IntRange(0, 2600).Draw(t, "split")
+			} else {
+				cl.Split = rapid.IntRange(0, 60000).Draw(t, "split")
+			}
+			cl.Prior = "absent"
 		}
 	}
 	c.CLI = cl
@@ -326,6 +341,8 @@ func runCLI(c Case) (o hx.Outcome) {
 		destDir   string
 		before    cliFileState
 		priorDesc = cl.Prior
+		feed      *fifoFeed // tar from a FIFO
+		fedAll    bool
 	)
 	bit := func(i int) bool { return cl.PriorSeed>>(uint(i)%64)&1 == 1 }
 	nStr := strconv.Itoa(n)
@@ -433,6 +450,43 @@ func runCLI(c Case) (o hx.Outcome) {
 		}
 
 	case "tar", "untar":
+		if cl.Cmd == "tar" && cl.Fifo {
+			files := c.Files
+			if len(files) == 0 {
+				files = []int{100, 0, 2000}
+			}
+			stream := cliTarStream(files, !cl.AddRoot)
+			var full bytes.Buffer
+			if e := desync.Tar(context.Background(), &full, desync.NewTarReader(bytes.NewReader(stream), desync.TarReaderOptions{AddRoot: cl.AddRoot})); e != nil {
+				o.Fail("C07:harness:tar-failed", "uncancelled Tar of the generated tar stream failed: %v", e)
+				return o
+			}
+			arch := full.Bytes()
+			units = len(ref.Chunk(arch, cliMakeSizes.Min, cliMakeSizes.Avg, cliMakeSizes.Max, false))
+			priorDesc = "absent"
+			k = 0
+			cut := min(max(cl.Split, 0), len(stream))
+			fifoPath := filepath.Join(work, "input.tar")
+			if err := syscall.Mkfifo(fifoPath, 0o600); err != nil {
+				cliInfra("mkfifo %s: %v", fifoPath, err)
+			}
+			feed = &fifoFeed{path: fifoPath, part1: stream[:cut], part2: stream[cut:]}
+			fedAll = cut == len(stream)
+			out := filepath.Join(work, "made.caidx")
+			args = []string{"tar", "-i", "-n", nStr, "-m", cliMakeArg, "-s", "@dst", "--input-format", "tar"}
+			if cl.AddRoot {
+				args = append(args, "--tar-add-root")
+			}
+			args = append(args, out, fifoPath)
+			complete = func(after map[string][]byte) string {
+				got, why := cliIndexCovers(out, arch)
+				if why != "" {
+					return why + " (input = the archive of the uninterrupted Tar of the same tar stream)"
+				}
+				return cliStoreMissing(after, "dst", arch, got)
+			}
+			break
+		}
 		srcDir := filepath.Join(work, "src")
 		os.Mkdir(srcDir, 0o755)
 		files := c.Files
@@ -518,7 +572,7 @@ func runCLI(c Case) (o hx.Outcome) {
 			}
 		}
 	}
-	res := runChild(work, args, st, cliSignal(cl.Sig), openPath)
+	res := runChild(work, args, st, cliSignal(cl.Sig), openPath, feed)
 	var after map[string][]byte
 	nreq := 0
 	if st != nil {
@@ -536,6 +590,9 @@ func runCLI(c Case) (o hx.Outcome) {
 		how = fmt.Sprintf("SIG%s sent while request %d of %d was held, %d answered before", cl.Sig, k, nreq, res.DoneBefore)
 		if openPath != "" {
 			how = fmt.Sprintf("SIG%s sent when the child had opened the file", cl.Sig)
+		}
+		if feed != nil {
+			how = fmt.Sprintf("SIG%s sent when the child had read the first %d of %d bytes of the tar stream from the FIFO, the rest fed afterwards; %d requests", cl.Sig, len(feed.part1), len(feed.part1)+len(feed.part2), nreq)
 		}
 	}
 	if exit0 {
@@ -567,12 +624,20 @@ func runCLI(c Case) (o hx.Outcome) {
 	if cl.Cmd == "make" {
 		o.Class(map[bool]string{true: "cli:make:print-stats", false: "cli:make:index"}[cl.Stats])
 	}
+	if cl.Cmd == "tar" {
+		o.Class(map[bool]string{true: "cli:tar:fifo", false: "cli:tar:directory"}[cl.Fifo])
+		if cl.Fifo && cl.AddRoot {
+			o.Class("cli:tar:fifo:add-root")
+		}
+	}
 	mid := false
 	if res.SignalSent {
 		o.Class("cli:signal-sent")
 		switch {
 		case openPath != "":
 			mid = !exit0 && said // observed: the verification was cut short by the signal
+		case feed != nil:
+			mid = feed.Drained && len(feed.part1) > 0 && !fedAll // part of the input read, the rest still to come
 		case res.DoneBefore >= 1:
 			mid = true
 		default:
@@ -585,6 +650,9 @@ func runCLI(c Case) (o hx.Outcome) {
 		o.Class("cli:signal-delivered-mid-flight", "cli:"+cl.Cmd+":mid-flight")
 		if cl.Cmd == "make" {
 			o.Class(map[bool]string{true: "cli:make:print-stats:mid-flight", false: "cli:make:index:mid-flight"}[cl.Stats])
+		}
+		if cl.Cmd == "tar" {
+			o.Class(map[bool]string{true: "cli:tar:fifo:mid-flight", false: "cli:tar:directory:mid-flight"}[cl.Fifo])
 		}
 	}
 	switch {
@@ -610,12 +678,31 @@ func runCLI(c Case) (o hx.Outcome) {
 		}
 	}
 	o.Nontrivial = mid
-	o.Desc = map[string]any{"entry": "cli", "cmd": cl.Cmd, "sig": cl.Sig, "k": k, "n": n, "units": units, "inplace": cl.Inplace, "prior": priorDesc, "dest_len": cl.DestLen, "print_stats": cl.Stats,
+	o.Desc = map[string]any{"entry": "cli", "cmd": cl.Cmd, "sig": cl.Sig, "k": k, "n": n, "units": units, "inplace": cl.Inplace, "prior": priorDesc, "dest_len": cl.DestLen, "print_stats": cl.Stats, "fifo": cl.Fifo, "add_root": cl.AddRoot, "split": cl.Split,
 		"signal_sent": res.SignalSent, "answered_before_signal": res.DoneBefore, "requests": nreq, "exit": res.Exit}
-	o.Key = fmt.Sprintf("cli/%s/%s/%d/%d/%d/%v/%s/%d/%v/%d/%v", cl.Cmd, cl.Sig, k, n, units, cl.Inplace, priorDesc, res.DoneBefore, exit0, cl.DestLen, cl.Stats)
+	o.Key = fmt.Sprintf("cli/%s/%s/%d/%d/%d/%v/%s/%d/%v/%d/%v", cl.Cmd, cl.Sig, k, n, units, cl.Inplace, priorDesc, res.DoneBefore, exit0, cl.DestLen, cl.Stats) + fmt.Sprintf("/%v/%v/%d/%d", cl.Fifo, cl.AddRoot, cl.Split, len(c.Files))
 	o.Observed = map[string]any{"args": cliShortArgs(args), "exit": res.Exit, "killed_by_signal": res.Signaled, "signal_sent": res.SignalSent,
 		"answered_before_signal": res.DoneBefore, "requests": nreq, "output": cliTail(res.Stderr, 1500)}
 	return o
+}
+
+// cliTarStream makes a GNU tar stream of flat regular files (sizes as given), optionally led by a
+// "./" directory entry, with fixed owners and times.
+func cliTarStream(files []int, rootEntry bool) []byte {
+	var buf bytes.Buffer
+	w := gnutar.NewWriter(&buf)
+	when := time.Unix(1600000000, 0)
+	if rootEntry {
+		w.WriteHeader(&gnutar.Header{Typeflag: gnutar.TypeDir, Name: "./", Mode: 0o755, ModTime: when, Format: gnutar.FormatGNU})
+	}
+	for i, sz := range files {
+		b := gen.RandBytes(max(sz, 0), uint64(i)*7919+uint64(sz)+1)
+		w.WriteHeader(&gnutar.Header{Typeflag: gnutar.TypeReg, Name: fmt.Sprintf("./f%02d", i), Mode: 0o644, Size: int64(len(b)),
+			Uid: 1000 + i%3, Gid: 100, ModTime: when.Add(time.Duration(i) * time.Second), Format: gnutar.FormatGNU})
+		w.Write(b)
+	}
+	w.Close()
+	return buf.Bytes()
 }
 
 func cliShortArgs(args []string) []string {
@@ -648,14 +735,15 @@ func init() {
 	if !cliEnabled() {
 		return
 	}
-	spec.Rule += "; CLI part (only when the driver provides the freshly built CLI): cases = (command in extract, make -s with and without --print-stats [quick, make at a low rate], + verify-index, chop, cache, tar -i -s, untar -i -s [thorough]; SIGINT or SIGTERM; -n 1..4; k; extract: -k or not, destination absent / garbage / partly right, destination base name blob or 200..255 bytes long (near NAME_MAX no temp file fits next to it); target store empty or partly filled); " +
-		"the harness serves the chunks over HTTP, holds the k-th request and all behind it, signals the child, releases, and lets the child finish on its own (verify-index: signal when the child has opened a 256 MiB sparse file that is corrupt in its last byte); " +
+	spec.Rule += "; CLI part (only when the driver provides the freshly built CLI): cases = (command in extract, make -s with and without --print-stats and tar -i -s --input-format tar [--tar-add-root] reading a generated tar stream from a FIFO [quick, make and tar at a low rate], + verify-index, chop, cache, tar -i -s of a directory, untar -i -s [thorough]; SIGINT or SIGTERM; -n 1..4; k; extract: -k or not, destination absent / garbage / partly right, destination base name blob or 200..255 bytes long (near NAME_MAX no temp file fits next to it); target store empty or partly filled); " +
+		"the harness serves the chunks over HTTP, holds the k-th request and all behind it, signals the child, releases, and lets the child finish on its own (tar from a FIFO: no request is held; the harness feeds the first `split` bytes of the stream, waits until the child has read them, signals, then feeds the rest and closes; verify-index: signal when the child has opened a 256 MiB sparse file that is corrupt in its last byte); " +
 		"oracle: exit status 0 => output file == blob / every chunk of the index valid in the harness store / index written tiles the input (make --print-stats writes no index: every chunk of the reference index of the input valid in the store) / unpacked tree == source; extract without -k and exit status != 0 => destination path unchanged (existence, inode, bytes, mode, mtime). " +
 		"non-trivial CLI case = the signal was sent while a request was held after at least one request had been answered; distinct by (command, signal, k, n, units, -k, prior, answered-before, exit 0?)"
 	spec.Required = append(spec.Required, "cli:extract", "cli:extract:inplace", "cli:extract:tmpfile", "cli:sig-INT", "cli:sig-TERM",
 		"cli:signal-delivered-mid-flight", "cli:exit-0", "cli:exit-nonzero", "cli:exit-nonzero:interrupted",
 		"cli:extract:tmpfile-interrupted-mid-flight", "cli:extract:inplace-interrupted-mid-flight",
-		"cli:extract:longname-tmpfile-existing-dest", "cli:make", "cli:make:index:mid-flight", "cli:make:print-stats:mid-flight")
+		"cli:extract:longname-tmpfile-existing-dest", "cli:make", "cli:make:index:mid-flight", "cli:make:print-stats:mid-flight",
+		"cli:tar:fifo", "cli:tar:fifo:add-root", "cli:tar:fifo:mid-flight")
 	if hx.Thorough() {
 		for _, cmd := range cliCommands[1:] {
 			if cmd == "make" {
@@ -737,6 +825,31 @@ func TestCLIEnum(t *testing.T) {
 		}
 	}
 	hx.AddNote("cli_fixed_make_cases", mtotal)
+	// tar -i of a tar stream fed through a FIFO, interrupted when a small first part has been read:
+	// whether the interruption is noticed by the chunking side or only by the encoding side is up to
+	// the child's scheduler, so every combination is run at six cut points
+	ttotal := 0
+	for i, sig := range []string{"INT", "TERM"} {
+		for j, addRoot := range []bool{true, false} {
+			for r, cut := range []int{700, 1024, 1100, 1536, 1800, 2048} {
+				job++
+				if job%hx.Shards() != hx.Shard() {
+					continue
+				}
+				if !addRoot {
+					cut += 512 // the "./" entry
+				}
+				c := Case{Entry: "cli", Point: "http", N: []int{1, 3}[(i+j+r)%2], Sizes: cliMakeSizes, Files: []int{300, 200, 500, 100, 2000, 900},
+					Pieces: []gen.Piece{{Kind: "rand", Len: 100, Seed: 97}},
+					CLI:    &CLICase{Cmd: "tar", Sig: sig, Prior: "absent", Fifo: true, AddRoot: addRoot, Split: cut}}
+				if !hx.Case(t, spec, c) {
+					return
+				}
+				ttotal++
+			}
+		}
+	}
+	hx.AddNote("cli_fixed_tar_fifo_cases", ttotal)
 }
 
 // TestCLISelf checks the machinery of the CLI part against stand-ins for the CLI whose behaviour
